@@ -27,6 +27,23 @@ NOTES = {  # seed -> (after, what was strengthened)
  "C04c_m1": ("caught (C04 response-plan correspondence + oracle)", "documents generated WITH content_type_overrides (media types that become text / json / octet-stream / form only through the option); expectation applies the overrides"),
  "C10c_m1": ("caught (C10 oracle + type correspondence)", "grid re-run under literal_enums; enum with a repeated member"),
  "C10c_m2": ("caught (C10: models package import; also C01)", "grid declares the required-with-default property BEFORE the required ones without default"),
+ "C05c_m1": ("caught (C05 stage A + stage C)", "enum-value slots whose text starts with a non-letter (positional VALUE_n branch) as separate sites; first-character payload classes; enum-member / import-exec oracle"),
+ "C07c_m1": ("caught (C07 correspondence + oracle)", "prefix-related schema names (Order / OrderItem, Pet / PetStore, A / AB / ABC) in census documents and graphs"),
+ "C08c_m2": ("caught (C08 oracle)", "bad pieces at path-item parameter level: inherited by every operation / overridden by some"),
+ "C12c_m1": ("caught (C12 stage A recursion_test_is_exact + oracle)", "Retry.v models the recursion test (rec_exact_order_independent, rec_sloppy_refuted); suffix-named allOf families under every order"),
+ "C12c_m2": ("caught (C12 stage A + oracle)", "dict views iterated by templates are table sites; twin string enums listing the same values in different orders (also exposed finding int_enum_twin_order)"),
+ "C14c_m1": ("caught (C14 correspondence + oracle)", "EnumsThm2 (unreported_enum_own_table, twins_share_only_equal_tables) over Scopes.model_decls; twin enums with coinciding member names and different values"),
+ "C15c_m2": ("caught (C15 oracle)", "suffix-related names, children declared before parents; both declaration orders"),
+ "C16c_m1": ("caught (C16 stage A + B + C)", "FrameCodec.validate_location over the regenerated _allowed_locations: literal_enum_same_operations; enums in every position incl. all four parameter locations"),
+ "C16c_m2": ("caught (C16 stage A + B + C)", "Frame.package_name = literal dash replacement (package_name_is_dash_replacement); overrides with upper case / camelCase / dots / spaces; default-location probe"),
+ "C01d_m1": ("caught (C01 import)", "builtin_names_doc: every builtin / keyword / soft keyword as optional property name and query parameter"),
+ "C02d_m1": ("caught (C02 document-vs-parse)", "which properties a component schema has and which it requires is read from the DOCUMENT (through allOf and references); children requiring a parent's optional property"),
+ "C03d_m2": ("caught (C03 oracle + correspondence)", "path_defaults_doc in the operation atlas: defaults on earlier path parameters, renamed ones"),
+ "C05d_m1": ("caught (C05 stage A + stage C)", "default-value slots of every kind that turns a string into code, classified by HOW the text is emitted (repr vs hand-quoted); validator-shaped payloads (also exposed findings uuid_default_whitespace - since repaired, fc6e947 - and literal_enum_default_docstring)"),
+ "C08d_m2": ("caught (C08 + C07 oracle)", "bad pieces whose error has no detail (float / bool enums) at every position incl. inline body properties, array-body items, all-media-types-unparseable"),
+ "C10d_m1": ("caught (C10 oracle; C02 oracle)", "closed classes in the grid; the runner checks that from_dict leaves its argument alone and decodes it equally twice"),
+ "C10d_m2": ("caught (C10 oracle)", "optional parameters WITH a schema default; calls passing UNSET explicitly"),
+ "C11d_m2": ("caught (C11 correspondence)", "NEW MODEL Returns.v: response_ty = union of all documented response types, return_annotation_truthful proved; Endpoint.response_type() compared with it"),
  "C19c_m1": ("caught (C19 oracle + hook_cwd correspondence)", "post hooks: a marker hook that rewrites *.py below its working directory, all four flavours, with sentinel files around the output directory; Fs.hook_cwd"),
  "C10_m1": ("caught (C10 oracle, C02 correspondence)", "falsy-but-present values (0, \"\", false, {}, []) in the C02 atlas and the C10 grid"),
  "C10_m2": ("caught (C10 oracle; C15 caught it at once)", "allOf-refined required properties in the C10 grid"),
